@@ -360,6 +360,7 @@ func checkAPIKey(r *http.Request) *AuthToken {
 }
 
 func updateAPIKeys(_ context.Context, _ interface{}) error {
+	defer vhook.At("api.keys.update.returned")
 	apiKeysLock.Lock()
 	defer apiKeysLock.Unlock()
 
